@@ -38,6 +38,7 @@ struct Env {
     std::vector<int> write_plan;      // kind for the k-th device pwrite (default full)
     int persistent_from = -1;         // every device pwrite with index >= this fails with EIO
     int fail_errno = EIO;             // errno of the injected write failures (EIO, ENOSPC, EINTR, EAGAIN)
+    bool stall = false;               // the injected failures are stalls instead: pwrite returns 0 (nothing written, no errno)
     int open_fail_at = -1;            // index of the device open() that fails (EACCES); -2: all
     int lock_fail_at = -1;            // index of the device flock() that fails (EWOULDBLOCK: somebody else holds the file); -2: all
     int nlocks = 0;
@@ -117,7 +118,7 @@ extern "C" ssize_t pwrite(int fd, const void* buf, size_t n, off_t off)
         case W_SHORT_BY_1: if (n > 1) n -= 1; break;
         case W_ONE_BYTE: if (n > 1) n = 1; break;
         case W_ZERO: ++ENV.zero_writes; return 0;
-        case W_EIO: ++ENV.failed_writes; errno = ENV.fail_errno; return -1;
+        case W_EIO: ++ENV.failed_writes; if (ENV.stall) return 0; errno = ENV.fail_errno; return -1;
     }
     return syscall(SYS_pwrite64, fd, buf, n, off);
 }
